@@ -199,7 +199,7 @@ def run(ctx):
 
 
 META = {
-    "technique": "typestate-style ordering checks (defrost before mutation, freeze after) on the CFGs of one instantiation of trie<TM>; contradiction rule over result constructions; representation-consistency facts",
+    "technique": "typestate-style ordering checks (defrost before mutation, freeze after) on the CFGs of one instantiation of trie<TM>; contradiction rule over result constructions; representation-consistency facts; conjunct analysis of the prunable predicate and guard dominance on every child erase",
     "level": "Static decision that the node tree is mutated only with the flattened arrays dropped and is re-frozen under autoFreeze on every path, that trieNode::get never reports two different lengths for the same node "
              "(the defect behind frozen/unfrozen disagreement), that size() and remove() keep the value vector and both index spaces consistent, and that the frozen layout is produced in sorted order and read only when valid.",
     "note": "Does not decide that the binary-search lookup and the tree lookup compute the same function for all tries (that is a relational proof over data shapes). The empty key is not covered.",
